@@ -15,5 +15,5 @@ done
 # bring the regenerated tables back to the unchanged tree
 python3 -c "
 import sys; sys.path.insert(0,'/verif')
-from vcheck import translator, translator_db
-print(translator.regenerate()); print(translator_db.regenerate())" 2>&1 | grep -v WARNING
+from vcheck import translator, translator_db, translator_knobs
+print(translator.regenerate()); print(translator_db.regenerate()); print(translator_knobs.regenerate())" 2>&1 | grep -v WARNING
